@@ -77,7 +77,7 @@ NATIVE = dict(
 # extra dev-dependencies written into the scratch copy's Cargo.toml (workspace members only: resolvable offline)
 NATIVE_DEV_DEPS = dict(rumqttd=['rumqttc = { path = "../rumqttc" }'])
 DIGEST_COPIES = {'topic-copies-agree': (3, ['C12'])}
-NATIVE_ENV = dict(quick=dict(VERIF_NMAX=3, VERIF_DEPTH=11, VERIF_TOPIC_LEN=4, VERIF_FILTER_LEN=4, VERIF_EVENT_DEPTH=3, VERIF_REQ_DEPTH=3, VERIF_DEC_ALL=2, VERIF_DEC_LEN=6, VERIF_CODEC_BIG=0, VERIF_LOG_DEPTH=7, VERIF_ADMIT_DEPTH=4, VERIF_BAD_DEPTH=3, VERIF_EVT_DEPTH=3), thorough=dict(VERIF_NMAX=4, VERIF_DEPTH=12, VERIF_TOPIC_LEN=5, VERIF_FILTER_LEN=4, VERIF_EVENT_DEPTH=4, VERIF_REQ_DEPTH=4, VERIF_DEC_ALL=3, VERIF_DEC_LEN=7, VERIF_CODEC_BIG=1, VERIF_LOG_DEPTH=9, VERIF_ADMIT_DEPTH=5, VERIF_BAD_DEPTH=4, VERIF_EVT_DEPTH=4))
+NATIVE_ENV = dict(quick=dict(VERIF_NMAX=3, VERIF_DEPTH=11, VERIF_TOPIC_LEN=4, VERIF_FILTER_LEN=4, VERIF_EVENT_DEPTH=3, VERIF_REQ_DEPTH=3, VERIF_DEC_ALL=2, VERIF_DEC_LEN=6, VERIF_CODEC_BIG=0, VERIF_LOG_DEPTH=7, VERIF_ADMIT_DEPTH=4, VERIF_BAD_DEPTH=3, VERIF_EVT_DEPTH=3, VERIF_FUZZ_SEEDS=120, VERIF_LOOP_DEPTH=9), thorough=dict(VERIF_NMAX=4, VERIF_DEPTH=12, VERIF_TOPIC_LEN=5, VERIF_FILTER_LEN=4, VERIF_EVENT_DEPTH=4, VERIF_REQ_DEPTH=4, VERIF_DEC_ALL=3, VERIF_DEC_LEN=7, VERIF_CODEC_BIG=1, VERIF_LOG_DEPTH=9, VERIF_ADMIT_DEPTH=5, VERIF_BAD_DEPTH=4, VERIF_EVT_DEPTH=4, VERIF_FUZZ_SEEDS=3000, VERIF_LOOP_DEPTH=10))
 
 _CLIENT_STATE_VERUS = [
     'Verus units cstate4 / cstate5: the handler bodies are the text of /repo at run time; stand-in declarations for Bytes, Instant/Duration, io::Error, mqttbytes::Error and the packet structs the handlers only move',
